@@ -62,6 +62,7 @@ type runOut struct {
 	stdout string
 	stderr string
 	files  string
+	filesSorted string
 	hung   bool
 }
 
@@ -78,11 +79,17 @@ func runGotree(bin string, base string, args []string) runOut {
 		fatal("%v", err)
 	}
 	defer os.RemoveAll(dir)
+	return runGotreeIn(bin, dir, args, stdinTree)
+}
+
+// runs the binary in dir (files it leaves there are part of the output)
+func runGotreeIn(bin string, dir string, args []string, stdin string) runOut {
+	var err error
 	ctx, cancel := context.WithTimeout(context.Background(), 20*time.Second)
 	defer cancel()
 	c := exec.CommandContext(ctx, bin, args...)
 	c.Dir = dir
-	c.Stdin = strings.NewReader(stdinTree)
+	c.Stdin = strings.NewReader(stdin)
 	var so, se bytes.Buffer
 	c.Stdout, c.Stderr = &so, &se
 	err = c.Run()
@@ -97,17 +104,27 @@ func runGotree(bin string, base string, args []string) runOut {
 	}
 	mask := func(s string) string { return reDate.ReplaceAllString(s, "<date>") }
 	out.stdout, out.stderr = mask(so.String()), mask(se.String())
-	var names []string
+	var names, snames []string
 	filepath.Walk(dir, func(p string, info os.FileInfo, err error) error {
 		if err == nil && !info.IsDir() {
 			b, _ := os.ReadFile(p)
+			b = []byte(strings.ReplaceAll(string(b), dir, "<run>"))
+			if i := strings.LastIndex(dir, "/"); i > 0 {
+				b = []byte(maskScratch(string(b), dir[:i]))
+			}
 			h := sha256.Sum256([]byte(mask(string(b))))
 			names = append(names, strings.TrimPrefix(p, dir)+":"+hex.EncodeToString(h[:6]))
+			ls := strings.Split(mask(string(b)), "\n")
+			sort.Strings(ls)
+			h2 := sha256.Sum256([]byte(strings.Join(ls, "\n")))
+			snames = append(snames, strings.TrimPrefix(p, dir)+":"+hex.EncodeToString(h2[:6]))
 		}
 		return nil
 	})
 	sort.Strings(names)
 	out.files = strings.Join(names, ",")
+	sort.Strings(snames)
+	out.filesSorted = strings.Join(snames, ",")
 	return out
 }
 
@@ -186,3 +203,8 @@ func trunc(s string) string {
 	}
 	return s
 }
+
+var reScratch = regexp.MustCompile(`/(detin|detrun|fr)[0-9]+`)
+
+// scratch directory names (random suffixes) written into log files are not output
+func maskScratch(s, base string) string { return reScratch.ReplaceAllString(s, "/<scratch>") }
